@@ -309,6 +309,37 @@ func runC13(r *Rng, n int, replay string) {
 		c.Cells = []string{"bufferpool"}
 		emitC(c)
 	}
+	// ---- (a') an Emit that lands exactly between a waiter's "not yet emitted" check and its registration ----
+	// (the registration derives a child context from the pubsub's context: a context whose Value method is a hook is
+	//  called at that very point; from there another goroutine emits the key and is given time to finish)
+	for t := 0; t < 4; t++ {
+		c := &Case{Kind: "pubsub-gap", Trivial: true}
+		c.Cells = []string{"pubsub/gap"}
+		base, cancel := context.WithCancel(context.Background())
+		hc := &hookCtx{Context: base}
+		ps := hptar.NewPubsubVerif(hc)
+		emitDone := make(chan struct{})
+		var once sync.Once
+		hc.hook = func() {
+			once.Do(func() {
+				go func() { ps.Emit("k"); close(emitDone) }()
+				select {
+				case <-emitDone:
+				case <-time.After(3 * time.Millisecond): // (blocked on the lock the waiter holds: the usual case)
+				}
+			})
+		}
+		waitDone := make(chan struct{})
+		go func() { ps.Wait("k"); close(waitDone) }()
+		c.Text = []string{"pubsub: Emit(k) issued from inside Wait(k)'s registration step (another goroutine)"}
+		select {
+		case <-waitDone:
+		case <-time.After(2 * time.Second):
+			c.fail("pubsub: a Wait(k) that was registering while Emit(k) ran is still blocked 2 s after the Emit: lost wake-up", "pubsub:gap:lost-wakeup")
+		}
+		cancel()
+		emitC(c)
+	}
 	// ---- (b) end to end ----
 	for it := 0; id < n; it++ {
 		ar := archives[it%len(archives)]
@@ -494,4 +525,18 @@ func runC13(r *Rng, n int, replay string) {
 		cancel()
 		emitC(c)
 	}
+}
+
+// hookCtx: a context whose Value method calls a hook (context.WithCancel(parent) asks the parent for a value
+// while it links the child to it).
+type hookCtx struct {
+	context.Context
+	hook func()
+}
+
+func (h *hookCtx) Value(key interface{}) interface{} {
+	if h.hook != nil {
+		h.hook()
+	}
+	return h.Context.Value(key)
 }
